@@ -277,6 +277,8 @@ def run(prog, rep, tier):
     from .C08 import cpdag_core
     cpdag_core(rep, prog)
     member_rules(rep, prog)
+    from .common import inputs_intact
+    inputs_intact(rep, prog, [U + n_ for n_ in ['mec', 'all_dags', 'is_consistent_extension', 'dag_to_cpdag']])
     # membership compares *sets* of v-structure triples: the triples must be canonical ((min, c, max), unshielded colliders)
     from .C16 import vstructure_rules
     vstructure_rules(rep, prog)
